@@ -44,6 +44,15 @@ WeakClause(c, r, cert, k1) ==
        ELSE IF \E X \in Nts(g) : \E ea \in ExtAssts(g, X) : lowOf(X, ea) > cert[X][ea] + Slack(cert[X][ea]) THEN "NeverAboveAFixedPoint"
        ELSE "ok"
 
+\* Fine residuals (float64 runs with tol <= 1e-5, also tol = 0): r.resid[X] = observed value minus the certified least fixed
+\* point, in units of 2^-40 (the certificate is a dyadic number, the subtraction of two nearby doubles is exact), r.tolf = tol
+\* in the same units.  Banach a-posteriori bound tol / (1 - q), plus 4096 units (3.7e-9) for accumulated rounding:
+\*     |resid| <= a + a q / (1 - q),   a = tolf + 4096
+FineAllow(tolf, q) == LET a == tolf + 4096 IN a + ((a \div (FXS - q)) + 1) * q
+FineOK(c, r, q) ==
+  "resid" \notin DOMAIN r \/ r.tolf < 0 \/
+  \A X \in DOMAIN r.resid : \A i \in DOMAIN r.resid[X] : BAbs(r.resid[X][i]) <= FineAllow(r.tolf, q)
+
 RunClause(c, r, certified, q, cert, lo, mu) ==
   IF r.method = "linear" /\ ~LinearlyRecursive(c.ag) THEN
        (IF r.out = "raise:ValueError" THEN "ok" ELSE "LinearRaisesValueErrorOnNonLinearGrammar")
@@ -52,7 +61,8 @@ RunClause(c, r, certified, q, cert, lo, mu) ==
   ELSE IF r.warned THEN "ok"              \* the method said it did not converge: nothing is claimed
   ELSE IF r.sr = "fx" THEN
        IF certified THEN
-            (IF \E X \in Nts(c.ag) : ~Within(c.ag, X, r.res[X], cert[X], Eps(r.tolu, q)) THEN "LeastFixedPointOrWarning" ELSE "ok")
+            (IF \E X \in Nts(c.ag) : ~Within(c.ag, X, r.res[X], cert[X], Eps(r.tolu, q)) THEN "LeastFixedPointOrWarning"
+             ELSE IF ~FineOK(c, r, q) THEN "ErrorVanishesAsTolDoes" ELSE "ok")
        ELSE WeakClause(c, r, cert, lo)
   ELSE IF ~mu[r.sr].stable THEN "ok"      \* Kleene did not stabilise within the bound: uncertified
   ELSE IF \E X \in Nts(c.ag) : ~TensorEq(c.ag, X, r.res[X], mu[r.sr].x[X]) THEN "LeastFixedPointOrWarning"
